@@ -333,32 +333,7 @@ func checkC03(c *Ctx) Meta {
 			c.OK("C03-ATOMIC", key, c.Pos(ins.Pos()), "on the unlocked path every return after the insertion passes useKeystore")
 		}
 	}
-	if f := c.MustFn("C03-ATOMIC", "poc/wallet/keystore", "(*KeystoreManagerForPoC).ChangePrivPassphrase"); f != nil {
-		ok := false
-		for _, s := range txSites(f) {
-			if !s.Write || s.Closure == nil {
-				continue
-			}
-			// inside the closure: range over managedKeystores calling changePrivPassphrase
-			rangeOK, callIn := false, false
-			allInstrs(s.Closure, func(in ssa.Instruction) {
-				if rg, isR := in.(*ssa.Range); isR && backSlice(rg.X).hasField(tKMC, "managedKeystores") {
-					rangeOK = true
-				}
-				if cl, isC := in.(*ssa.Call); isC && isCall(cl, "(*"+tAddrMgr+").changePrivPassphrase") && blockReentered(s.Closure, cl) {
-					callIn = true
-				}
-			})
-			if rangeOK && callIn {
-				ok = true
-			}
-		}
-		if ok {
-			c.OK("C03-ATOMIC", "ChangePrivPassphrase:all-keystores-one-transaction", c.Pos(f.Pos()), "changePrivPassphrase is applied to every element of managedKeystores inside the single db.Update closure")
-		} else {
-			c.Bad("C03-ATOMIC", "ChangePrivPassphrase:all-keystores-one-transaction", c.Pos(f.Pos()), "the private passphrase is not changed for all keystores in one transaction: keystores can end up under different passphrases")
-		}
-	}
+	checkRekeyAllKeystores(c, "C03-ATOMIC")
 	checkUnlockAllOrNothing(c, "C03-ATOMIC")
 	return Meta{
 		Explanation: "Credential gates as edge-cut dominance over every operation that reveals or changes secrets, a who-may-write rule on the stored credential, a cover rule for the eraser over all private-hierarchy fields (derived from the struct types), a lifetime rule for scrypt-derived key-decrypting keys, and the all-keystores structure of passphrase change and unlock.",
@@ -1059,6 +1034,37 @@ func checkUnlockAllOrNothing(c *Ctx, rule string) {
 			c.OK(rule, key, c.Pos(f.Pos()), "every keystore is unlocked with the caller's passphrase; the manager is marked unlocked only if none failed")
 		} else {
 			c.Bad(rule, key, c.Pos(f.Pos()), "the manager can be marked unlocked although a keystore rejected the passphrase (or not every keystore is tried)")
+		}
+	}
+}
+
+// checkRekeyAllKeystores: ChangePrivPassphrase re-encrypts every keystore inside its one transaction
+// (shared by C03-ATOMIC and C04-REKEY).
+func checkRekeyAllKeystores(c *Ctx, rule string) {
+	if f := c.MustFn(rule, "poc/wallet/keystore", "(*KeystoreManagerForPoC).ChangePrivPassphrase"); f != nil {
+		ok := false
+		for _, s := range txSites(f) {
+			if !s.Write || s.Closure == nil {
+				continue
+			}
+			// inside the closure: range over managedKeystores calling changePrivPassphrase
+			rangeOK, callIn := false, false
+			allInstrs(s.Closure, func(in ssa.Instruction) {
+				if rg, isR := in.(*ssa.Range); isR && backSlice(rg.X).hasField(tKMC, "managedKeystores") {
+					rangeOK = true
+				}
+				if cl, isC := in.(*ssa.Call); isC && isCall(cl, "(*"+tAddrMgr+").changePrivPassphrase") && blockReentered(s.Closure, cl) {
+					callIn = true
+				}
+			})
+			if rangeOK && callIn {
+				ok = true
+			}
+		}
+		if ok {
+			c.OK(rule, "ChangePrivPassphrase:all-keystores-one-transaction", c.Pos(f.Pos()), "changePrivPassphrase is applied to every element of managedKeystores inside the single db.Update closure")
+		} else {
+			c.Bad(rule, "ChangePrivPassphrase:all-keystores-one-transaction", c.Pos(f.Pos()), "the private passphrase is not changed for all keystores in one transaction: keystores can end up under different passphrases")
 		}
 	}
 }
